@@ -137,6 +137,17 @@ func (e *env) labC03(parent, blk *types.Block, rcpts *types.Receipts, before map
 						ok = false
 					}
 				}
+				if (!ok || !nonceSeen || len(want) != 0) && feeDelegUnpayable(tx, r) && onlyForeignCredits(d, payer, sender, body.GetNonce(), fee) {
+					// listed known finding (contract.Execute judges "can the contract pay the fee" only
+					// after the call has committed what it sent to other accounts); the run goes on
+					x.Probe("fee-delegated-call-sent-funds-then-could-not-pay-fee")
+					if x.FailKnownOrStop("C03", "failed-tx-left-effects", knownFeeDelegSig, fmt.Sprintf("%s failed at run time (%s) after the call had sent funds away; the recipients keep them while the contract is charged the fee only: %v", what, r.Ret, d), e.stepIdx) {
+						prev = cur
+						root = newRoot
+						continue
+					}
+					return
+				}
 				if !ok || !nonceSeen || len(want) != 0 {
 					x.Fail("C03", "failed-tx-left-effects", fmt.Sprintf("type%d", body.GetType()), fmt.Sprintf("%s failed at run time; allowed delta is {payer %s -fee, sender %s nonce->%d} but the state changed by %v", what, payer, sender, body.GetNonce(), d), e.stepIdx)
 					return
@@ -226,4 +237,46 @@ func resolve(st *statedb.StateDB, acct []byte) []byte {
 		return acct
 	}
 	return acct
+}
+
+const knownFeeDelegSig = "fee-delegated-call-sent-funds-then-could-not-pay-fee"
+
+// feeDelegUnpayable recognises the one situation of the listed known finding: a fee-delegated call
+// that ran to completion and was then failed because the contract can no longer pay the fee.
+func feeDelegUnpayable(tx *types.Tx, r *types.Receipt) bool {
+	b := tx.GetBody()
+	return b.GetType() == types.TxType_FEEDELEGATION && r.Status == "ERROR" && strings.Contains(r.Ret, types.ErrInsufficientBalance.Error()) &&
+		!bytes.Equal(b.GetAccount(), b.GetRecipient())
+}
+
+// onlyForeignCredits: apart from the allowed delta (payer -fee, sender nonce) every change is a
+// credit to some other account.
+func onlyForeignCredits(d []string, payer, sender string, nonce uint64, fee *big.Int) bool {
+	n := 0
+	for _, s := range d {
+		f := strings.Split(s, ":")
+		switch {
+		case strings.HasPrefix(s, "acct:"+sender+":nonce:") && strings.HasSuffix(s, fmt.Sprintf("->%d", nonce)):
+		case s == "acct:"+payer+":balance:-"+fee.String():
+		case len(f) == 4 && f[0] == "acct" && f[2] == "balance" && f[1] != payer && f[1] != sender && !strings.HasPrefix(f[3], "-"):
+			n++
+		default:
+			return false
+		}
+	}
+	return n > 0
+}
+
+// sentAway sums what a stub script sends to accounts other than the contract itself.
+func sentAway(script string, self []byte) *big.Int {
+	sum := new(big.Int)
+	for _, st := range strings.Split(script, ";") {
+		f := strings.Fields(st)
+		if len(f) == 3 && f[0] == "send" && f[1] != fmt.Sprintf("%x", self) {
+			if a, ok := new(big.Int).SetString(f[2], 10); ok {
+				sum.Add(sum, a)
+			}
+		}
+	}
+	return sum
 }
